@@ -48,6 +48,12 @@ CHECKS = {
  "C14": ("runtime monitor: differential execution against an independent T.87 decoder (internal/ref/t87.go, default parameters, ILV 0 and 2), byte-equality of the two encoders at NEAR=0, cross-package decoding, and the Annex H.3 vector",
          "Held on every executed image: P 2..16, components 1/3, NEAR 0 and a spread up to the maximum, all content classes, complete small-image spaces at NEAR 0 and 1; the reference decoder reports how many regular / run / interruption samples, escape codes, context resets, bias saturations and modulo corrections it went through.",
          "Trusted: the reference decoder, pinned by the H.3 vector; see the honesty note in DESIGN appendix A.3. lossless.Decode on NEAR>0 streams is recorded, not judged.", "3/C14"),
+ "C15": ("runtime monitor: differential execution against Go's image/jpeg (decoder and encoder) and an independent baseline encoder (internal/ref/baselineenc.go: 4:4:4/4:2:2/4:2:0/4:4:0, Annex K or optimised tables, DRI/RSTn, JFIF/Adobe)",
+         "Held on every executed stream: (A) library 8-bit streams accepted by image/jpeg and reconstructed within 2 (grey) / 6 (RGB) of the library decoder; (B) independent streams decoded by baseline.Decode and extended.Decode within the same tolerance of image/jpeg and tightly packed. Every size 1..33 x 1..33 in the thorough tier.",
+         "Trusted: image/jpeg; the reference encoder's streams must be accepted by image/jpeg and the strict walker or the case is inconclusive.", "3/C15"),
+ "C16": ("runtime monitor: independent strict marker walkers (T.81/T.87, 15444-1, Annex G) over the bytes returned by every encoder; header fields compared with the encoder's arguments; lossless and JPEG-LS scans consumed by the reference decoders",
+         "Held on every executed stream of every encoder family (baseline, extended 8/12, lossless 0..7, SV1, JPEG-LS lossless/near, JPEG 2000 reversible/irreversible/tiled/layered/all progressions/precincts, HTJ2K lossless/lossy, RLE) on noise content, incl. 65535x1 / 1x65535 and tile grids to 8x8; the evidence counts the 0xFF bytes seen inside entropy-coded data.",
+         "Trusted: the walkers.", "3/C16"),
 }
 
 NOT_YET = {
